@@ -7,6 +7,7 @@ package lossy
 
 import (
 	"math"
+	"sync/atomic"
 
 	"github.com/maypok86/otter/v2/internal/generated/node"
 )
@@ -187,4 +188,44 @@ func ZZ_C17_StripedPar() {
 	for k := range succeeded {
 		vAssert(delivered[k] == 1, "c17.striped.par.no_ring_lost_every_success_delivered")
 	}
+}
+
+func init() { vRegister("ZZ_C17_StripedState", ZZ_C17_StripedState) }
+
+// ZZ_C17_StripedState: the striped table constructed directly in any sparse shape (every subset of 4 stripes
+// populated, as left behind by lazy stripe creation after two expansions), then one more Add whose stripe is chosen
+// by the (symbolic) random token, then DrainTo: every successfully recorded entry is delivered exactly once and
+// Len() returns to zero.
+func ZZ_C17_StripedState() {
+	m := zzMgr()
+	s := NewStriped(4, m)
+	n := vParam("stripes")
+	maskSel := 1 + vChoice("populated", (1<<n)-1)
+	st := &striped[int, int]{buffers: make([]atomic.Pointer[ring[int, int]], n), len: n}
+	succeeded := map[int]bool{}
+	for i := 0; i < n; i++ {
+		if maskSel&(1<<i) != 0 {
+			k := 10 * (i + 1)
+			r := newRing(m, m.Create(k, k, 0, 0, 1))
+			succeeded[k] = true
+			if r.add(m.Create(k+1, k+1, 0, 0, 1)) == Success {
+				succeeded[k+1] = true
+			}
+			st.buffers[i].Store(r)
+		}
+	}
+	s.striped.Store(st)
+	if s.Add(m.Create(99, 99, 0, 0, 1)) == Success {
+		succeeded[99] = true
+	}
+	vAssert(s.Len() == len(succeeded), "c17.state.len_counts_every_stripe")
+	delivered := map[int]int{}
+	s.DrainTo(func(x node.Node[int, int]) { delivered[x.Key()]++ })
+	for k := range succeeded {
+		vAssert(delivered[k] == 1, "c17.state.every_recorded_entry_delivered_from_every_stripe")
+	}
+	for k, c := range delivered {
+		vAssert(c == 1 && succeeded[k], "c17.state.delivered_once_and_only_recorded")
+	}
+	vAssert(s.Len() == 0, "c17.state.empty_after_drain")
 }
